@@ -41,6 +41,15 @@ type glFunc struct {
 	Tuples map[string][]string
 	// Skip: statements (by the prefix of their source text) that only fetch such outside values
 	Skip []string
+	// Fields: struct field name -> Lean accessor, for `x.f` where x is a local of a modelled struct type
+	Fields map[string]string
+	// MapFields / MapVars: Go maps read by the function. "ptr": values are pointers (a lookup yields an
+	// Option, nil = none); "zero": a missing key yields the empty string
+	MapFields map[string]string
+	MapVars   map[string]string
+	// Thread: extra variables (fields reached through a pointer parameter, mapped by Env and marked in
+	// Ptr) that are threaded through like pointer parameters: declared in Args, returned first
+	Thread []string
 }
 
 type glUnit struct {
@@ -255,6 +264,20 @@ func (t *glTr) exprs(es []ast.Expr) ([]string, []bool) {
 	return cs, ps
 }
 
+func (t *glTr) mapKind(e ast.Expr) string {
+	if sel, ok := e.(*ast.SelectorExpr); ok {
+		if k, ok := t.fn.MapFields[sel.Sel.Name]; ok {
+			return k
+		}
+	}
+	if id, ok := e.(*ast.Ident); ok {
+		if k, ok := t.fn.MapVars[id.Name]; ok {
+			return k
+		}
+	}
+	return ""
+}
+
 // expr returns Lean code for e and whether it is a pure term (true) or a term of type `M _` (false).
 func (t *glTr) expr(e ast.Expr) (string, bool) {
 	if v, ok := glConst(e); ok {
@@ -268,6 +291,24 @@ func (t *glTr) expr(e ast.Expr) (string, bool) {
 	if _, isCall := e.(*ast.CallExpr); isCall {
 		if tup, ok := t.fn.Tuples[glSrc(e)]; ok && len(tup) == 1 {
 			return tup[0], true
+		}
+	}
+	if sel, ok := e.(*ast.SelectorExpr); ok {
+		if id, ok := sel.X.(*ast.Ident); ok && t.scope[id.Name] {
+			if acc, ok := t.fn.Fields[sel.Sel.Name]; ok {
+				return "(" + acc + " " + t.nm(id.Name) + ")", true
+			}
+		}
+	}
+	if ie, ok := e.(*ast.IndexExpr); ok {
+		if kind := t.mapKind(ie.X); kind != "" {
+			m, pm := t.expr(ie.X)
+			k, pk := t.expr(ie.Index)
+			f := "Glb.Go.mapGet"
+			if kind == "zero" {
+				f = "Glb.Go.mapGetD"
+			}
+			return t.seq([]string{m, k}, []bool{pm, pk}, func(s []string) string { return "(" + f + " " + s[0] + " " + s[1] + ")" })
 		}
 	}
 	switch x := e.(type) {
@@ -474,6 +515,18 @@ func (t *glTr) call(x *ast.CallExpr) (string, bool) {
 			return c, false
 		}
 		return "(do let r ← " + c + "; r)", false
+	}
+	if sel, ok := x.Fun.(*ast.SelectorExpr); ok {
+		if id, ok := sel.X.(*ast.Ident); ok && t.scope[id.Name] {
+			if sig, ok := glSigs["method:"+sel.Sel.Name]; ok {
+				cs, ps := t.exprs(append([]ast.Expr{sel.X}, x.Args...))
+				c, p := t.seq(cs, ps, func(s []string) string { return "(" + sig.lean + " " + strings.Join(s, " ") + ")" })
+				if p {
+					return c, false
+				}
+				return "(do let r ← " + c + "; r)", false
+			}
+		}
 	}
 	if sig, ok := glSigs[name]; ok {
 		for _, p := range sig.ptr {
@@ -712,6 +765,9 @@ func (t *glTr) stmt(ind int, s ast.Stmt) {
 		}
 		t.line(ind, "%s", t.returnCode(cs))
 	case *ast.IfStmt:
+		if t.ifLookup(ind, x) {
+			return
+		}
 		var ifLocals []string
 		defer func() {
 			for _, n := range ifLocals {
@@ -773,6 +829,73 @@ func (t *glTr) stmt(ind int, s ast.Stmt) {
 	default:
 		t.die(s, "unsupported statement %T", s)
 	}
+}
+
+// ifLookup handles the two pointer idioms:
+//   if v, ok := m[k]; ok { A } else B            (m a "ptr" map)
+//   if v := f(..); v != nil { A } else B         (also `v = f(..)` assigning an existing variable)
+// as a Lean `match` on the Option the lookup / call yields.
+func (t *glTr) ifLookup(ind int, x *ast.IfStmt) bool {
+	as, ok := x.Init.(*ast.AssignStmt)
+	if !ok || len(as.Rhs) != 1 {
+		return false
+	}
+	var optCode string
+	var optPure bool
+	var bound string
+	assignExisting := false
+	switch {
+	case len(as.Lhs) == 2 && as.Tok == token.DEFINE:
+		ie, ok := as.Rhs[0].(*ast.IndexExpr)
+		if !ok || t.mapKind(ie.X) != "ptr" {
+			return false
+		}
+		okName := glText(as.Lhs[1])
+		if c, ok := x.Cond.(*ast.Ident); !ok || c.Name != okName {
+			return false
+		}
+		bound = glText(as.Lhs[0])
+		optCode, optPure = t.expr(ie)
+	case len(as.Lhs) == 1:
+		be, ok := x.Cond.(*ast.BinaryExpr)
+		if !ok || be.Op != token.NEQ || glText(be.Y) != "nil" || glText(be.X) != glText(as.Lhs[0]) {
+			return false
+		}
+		bound = glText(as.Lhs[0])
+		assignExisting = as.Tok == token.ASSIGN
+		optCode, optPure = t.expr(as.Rhs[0])
+	default:
+		return false
+	}
+	if bound == "" {
+		return false
+	}
+	if as.Tok == token.DEFINE && t.scope[bound] {
+		t.die(x, "if-init shadows %s", bound)
+	}
+	t.line(ind, "match %s with", glBind(optCode, optPure))
+	if assignExisting {
+		v := t.fresh()
+		t.line(ind, "| some %s =>", v)
+		t.line(ind+1, "%s := %s", t.nm(bound), v)
+		t.block(ind+1, x.Body.List)
+	} else {
+		t.define(x, bound)
+		t.line(ind, "| some %s =>", t.nm(bound))
+		t.block(ind+1, x.Body.List)
+		delete(t.scope, bound)
+		delete(t.alias, bound)
+	}
+	t.line(ind, "| none =>")
+	switch el := x.Else.(type) {
+	case nil:
+		t.line(ind+1, "pure ()")
+	case *ast.BlockStmt:
+		t.block(ind+1, el.List)
+	default:
+		t.stmt(ind+1, el)
+	}
+	return true
 }
 
 func (t *glTr) switchStmt(ind int, x *ast.SwitchStmt) {
@@ -1382,6 +1505,13 @@ func glTranslateUnit(u glUnit) {
 		}
 		t := &glTr{fn: f, decl: decl, file: files[f.File], b: &b, scope: map[string]bool{}, alias: map[string]string{}, count: map[string]int{}}
 		sig := &glSig{lean: u.NS + "." + lean}
+		if decl.Recv != nil {
+			for _, fld := range decl.Recv.List {
+				for _, n := range fld.Names {
+					t.define(n, n.Name)
+				}
+			}
+		}
 		for _, fld := range decl.Type.Params.List {
 			for _, n := range fld.Names {
 				t.define(n, n.Name)
@@ -1405,6 +1535,10 @@ func glTranslateUnit(u glUnit) {
 				}
 			}
 		}
+		for _, v := range f.Thread {
+			t.define(decl, v)
+			t.ptrs = append(t.ptrs, v)
+		}
 		fmt.Fprintf(&b, "\n/-- `%s` (%s:%d) -/\n", f.Name, f.File, fset.Position(decl.Pos()).Line)
 		fmt.Fprintf(&b, "def %s %s : Glb.Go.M %s := do\n", lean, f.Args, f.Ret)
 		for _, p := range t.ptrs {
@@ -1426,6 +1560,7 @@ func glTranslateUnit(u glUnit) {
 		glSigs[f.Name] = sig
 		if f.Recv != "" {
 			glSigs[f.Recv+"."+f.Name] = sig
+			glSigs["method:"+f.Name] = sig
 		}
 		names = append(names, f.Name)
 	}
@@ -1551,6 +1686,24 @@ func extractGoLean() {
 		Funcs: []glFunc{
 			{File: "ansi/terminfo.go", Name: "ScrollUpN", Args: "(n : Int)", Ret: "Bytes"},
 			{File: "ansi/terminfo.go", Name: "ScrollDownN", Args: "(n : Int)", Ret: "Bytes"},
+		},
+	})
+
+	nodeFields := map[string]string{"next": "Glb.Router.Node.next", "info": "Glb.Router.Node.info", "paramNameList": "Glb.Router.Node.params"}
+	routerEnv := map[string]string{
+		"methodTagMap": "Glb.Generated.methodTagMap", "MethodAll": "Glb.Generated.methodAll",
+		"routeParam": "Glb.Generated.routeParam", "routeParamAny": "Glb.Generated.routeParamAny",
+		"nil": "none", "params.K": "pK", "params.V": "pV",
+	}
+	glTranslate(glUnit{
+		Module: "TrRouter", NS: "Glb.Tr.Router",
+		Imports: []string{"Glb.Model.Router"},
+		Funcs: []glFunc{
+			{File: "httpd/tree.go", Recv: "treeNode", Name: "methodNodeOrNil", Args: "(node : Glb.Router.Node) (method : Bytes)", Ret: "(Option Glb.Router.Node)",
+				Fields: nodeFields, Env: routerEnv, MapFields: map[string]string{"next": "ptr"}, MapVars: map[string]string{"methodTagMap": "zero"}},
+			{File: "httpd/tree.go", Name: "findRoute", Args: "(node : Glb.Router.Node) (path method : Bytes) (pK pV : List Bytes)", Ret: "(List Bytes × List Bytes × Option Glb.Router.RouteId)",
+				Fields: nodeFields, Env: routerEnv, MapFields: map[string]string{"next": "ptr"}, MapVars: map[string]string{"methodTagMap": "zero"},
+				Ptr: map[string]bool{"params.K": true, "params.V": true}, Thread: []string{"pK", "pV"}},
 		},
 	})
 }
